@@ -171,36 +171,50 @@ def do_replay(mod, path: str) -> int:
     return 0
 
 
-def run_corpus(mod, active_known, report):
-    """Replay committed corpus files first (seconds-long tier)."""
+def _replay_file(mod_name, path):
+    mod = importlib.import_module(mod_name)
+    with open(path) as fh:
+        data = json.load(fh)
+    out = mod.replay(data["part"], data["case"])
+    viol = out.get("violation")
+    return {"path": path, "part": data["part"], "case": data["case"], "expect": data.get("expect", "ok"),
+            "violation": jsonable(viol) if viol else None}
+
+
+def run_corpus(mod, active_known, report, jobs=1):
+    """Replay committed corpus files first (seconds-long tier): fixed-* (reproductions of repaired defects) and
+    seed-* / mut-* (shrunk reproductions of deliberate breakages; all must hold on a correct tree), finding-*
+    (must reproduce the listed finding)."""
     cdir = os.path.join(ROOT, "corpus", mod.ID)
     results = {"replayed": 0, "known_reproduced": [], "known_not_reproduced": []}
     if not os.path.isdir(cdir):
         return results
-    for name in sorted(os.listdir(cdir)):
-        if not name.endswith(".json"):
-            continue
-        path = os.path.join(cdir, name)
-        with open(path) as fh:
-            data = json.load(fh)
-        out = mod.replay(data["part"], data["case"])
+    paths = [os.path.join(cdir, n) for n in sorted(os.listdir(cdir)) if n.endswith(".json")]
+    outs = []
+    if jobs > 1 and len(paths) > 3:
+        ctx = get_context("spawn")
+        with ProcessPoolExecutor(max_workers=min(jobs, len(paths)), mp_context=ctx) as pool:
+            outs = list(pool.map(_replay_file, [mod.__name__] * len(paths), paths))
+    else:
+        outs = [_replay_file(mod.__name__, p) for p in paths]
+    for o in outs:
         results["replayed"] += 1
-        viol = out.get("violation")
-        expect = data.get("expect", "ok")
-        rel = os.path.relpath(path, ROOT)
+        viol = o["violation"]
+        expect = o["expect"]
+        rel = os.path.relpath(o["path"], ROOT)
         if expect.startswith("known:"):
             key = expect[len("known:"):]
-            if viol and key in active_known and mod.KNOWN[key]["match"](data["part"], viol["kind"], data["case"]):
+            if viol and key in active_known and mod.KNOWN[key]["match"](o["part"], viol["kind"], o["case"]):
                 results["known_reproduced"].append(key)
                 report["known"][key] = mod.KNOWN[key]["text"]
             elif viol:
-                report["violations"].append({"part": data["part"], "kind": viol["kind"], "detail": viol["detail"],
-                                             "case": data["case"], "replay_path": rel})
+                report["violations"].append({"part": o["part"], "kind": viol["kind"], "detail": viol["detail"],
+                                             "case": o["case"], "replay_path": rel})
             else:
                 results["known_not_reproduced"].append(key)
         elif viol:
-            report["violations"].append({"part": data["part"], "kind": viol["kind"], "detail": viol["detail"],
-                                         "case": data["case"], "replay_path": rel})
+            report["violations"].append({"part": o["part"], "kind": viol["kind"], "detail": viol["detail"],
+                                         "case": o["case"], "replay_path": rel})
     return results
 
 
@@ -215,7 +229,7 @@ def run_check(mod, tier: str, seed: int, jobs: int, only: str | None, scale: flo
             return 2
 
     report = {"violations": [], "known": {}}
-    corpus = run_corpus(mod, active_known, report)
+    corpus = run_corpus(mod, active_known, report, jobs)
 
     plan = mod.plan(tier)
     units = []
